@@ -34,7 +34,14 @@ RULE = ("grammar-generated BED/BED6/narrowPeak/VCF/VCF-with-genotypes/VCF-with-d
         "DERIVING must not change the parent: a named table M that already has a replaced column (replace / assignment / a selection or "
         "concatenation of such a table) gives rise to a second table (replace of another or the same column, selection + assignment, "
         "concatenation + assignment, a written copy, a cached read), then M - or a selection / concatenation made from it afterwards - "
-        "is written and shows its own replacement only (`obj` nodes: one Python object per named table); "
+        "is written and shows its own replacement only (`obj` nodes: one Python object per named table); the mirror image: the parent "
+        "is UNTOUCHED, a table derived from it (selection, selection of a selection, concatenation, selection of a chunked read) is "
+        "modified IN PLACE by attribute assignment (or has columns read), then the parent / a SIBLING selection taken before the "
+        "assignment (same and other row count) / selections, concatenations and replaced copies of them are written: source bytes; "
+        "10% of the random programs are preceded by such an assignment on a derived table (optionally concatenated with it or a sibling); "
+        "'filter every file of a set and concatenate': three files of unequal size, a selection of each with every pattern of selections "
+        "WITHOUT rows (all-False mask, empty slice, empty int list) among selections with rows, one n-ary np.concatenate of 3-4 operands "
+        "in any order, written / reversed / replaced; "
         "the documented switches of laziness (config.LAZY assigned / ConfigContext x lazy= keyword x default; the keyword wins): every "
         "combination asking for lazy reading gives a lazy object and the pass-through (15% of the random cases + a fixed family); "
         "observable = bytes written by bnp.open(out,'w').write(result). Non-trivial = program has >= 2 steps and the selection "
@@ -423,6 +430,30 @@ def _new_values(rng, kind, n):
     raise KeyError(kind)
 
 
+def _wrap_inplace(rng, prog, lens, fmt):
+    """a table derived from an untouched leaf (selection / concatenation) is modified IN PLACE by attribute assignment before the
+    random program runs over the same leaves: the program's result is what it would have been anyway; variants concatenate the
+    modified table, or a sibling selection taken BEFORE the assignment, with the program's result"""
+    rep = FORMATS[fmt][3]
+    k = rng.randrange(len(lens))
+    leaf = {"t": k}
+    der = {"sel": leaf, "ix": _rand_idx(rng, lens[k])} if rng.random() < 0.7 else {"cat": [leaf, {"t": rng.randrange(len(lens))}]}
+    nd = _spec_len(der, lens)
+    if not nd:
+        return prog
+    oid = 10 + 2 * rng.randrange(1000)
+    O1 = {"obj": oid, "of": der}
+    kk = rng.choice(sorted(rep))
+    S = {"set": O1, "kw": [[kk, rep[kk], _new_values(rng, rep[kk], nd)]]}
+    r = rng.random()
+    if r < 0.5:
+        return {"seq": [S, prog]}
+    if r < 0.75:
+        return {"seq": [S, {"cat": [prog, O1]}]}
+    O2 = {"obj": oid + 1, "of": {"sel": leaf, "ix": _rand_idx(rng, lens[k])}}
+    return {"seq": [O2, {"seq": [S, {"cat": [O2, prog]}]}]}
+
+
 def make_case(rng, fmt, depth, replace_p=0.3, eol=None):
     ntab = rng.choice([1, 2, 2, 3])
     shape = {"samples": rng.choice([-1, 0, 1, 2, 3]) if fmt in ("vcf", "vcfi") else rng.choice([1, 2, 3]), "nc": rng.random() < 0.5}
@@ -441,6 +472,8 @@ def make_case(rng, fmt, depth, replace_p=0.3, eol=None):
         tables.append(recs)
     lens = [len(t) for t in tables]
     prog = _rand_prog(rng, lens, depth, fmt)
+    if depth and FORMATS[fmt][3] and fmt not in ("bam", "gtf") and rng.random() < 0.1:
+        prog = _wrap_inplace(rng, prog, lens, fmt)
     c = {"op": "prog", "fmt": fmt, "eol": eol, "samples": shape["samples"], "recs": tables,
          "prog": prog, "repl": []}
     n = _spec_len(prog, lens)
@@ -806,6 +839,24 @@ def cases(tier, rng):
                         yield _set_op(dict(base, prog={"seq": [{"set": d0, "kw": KW(k1, 5)},
                                                               {"seq": [{"touch": {"rep": d0, "kw": KW(k2, 5)}},
                                                                        {"sel": d0, "ix": {"slice": [None, None, 2]}}]}]}))
+    # 0h. the mirror image of 0f - the parent is UNTOUCHED (nothing replaced, nothing cached), a table DERIVED from it (selection,
+    #     selection of a selection, concatenation, chunked read) is modified IN PLACE by attribute assignment (or has columns read),
+    #     then the parent, a SIBLING derived before the assignment (same and other row count), or something made from them
+    #     afterwards is written: still the source bytes; the modified table itself shows the assigned column
+    for fmt in fmts:
+        rep = FORMATS[fmt][3]
+        if fmt in ("bam", "gtf") or not rep:
+            continue
+        for eol in ("\n", "\r\n"):
+            for c in _derived_inplace_cases(rng, fmt, eol, tier):
+                yield c
+    # 0i. "filter every file of a set, concatenate what is left": n-ary concatenation with operands WITHOUT rows among operands with rows
+    for fmt in fmts:
+        if fmt in ("bam", "gtf"):
+            continue
+        for eol in ("\n", "\r\n"):
+            for c in _filter_concat_cases(rng, fmt, eol, tier):
+                yield c
     # 0g. the documented switches of laziness and their precedence: config.LAZY (assigned or through ConfigContext) x the
     #     lazy= keyword x default - every combination that asks for lazy reading must give the pass-through (and a lazy object)
     for fmt in fmts:
@@ -837,6 +888,117 @@ def cases(tier, rng):
                     continue
                 base["repl"] = [[k, rep[k], _new_values(rng, rep[k], n)] for i, k in enumerate(ks) if bits >> i & 1]
                 yield base
+
+
+def _table_of(rng, fmt, eol, n, ns=()):
+    """tables of n (and ns...) records generated under ONE shape (same column count in every record of every table)"""
+    shape = {"samples": rng.choice([-1, 0, 1, 2]) if fmt in ("vcf", "vcfi") else rng.choice([1, 2, 3]), "nc": True}
+    tables = []
+    for m in (n,) + tuple(ns):
+        recs = []
+        for _ in range(m):
+            lines, fields = gen_record(fmt, rng, shape)
+            recs.append({"raw": "".join(l + eol for l in lines), "fields": fields})
+        tables.append(recs)
+    return {"op": "prog", "fmt": fmt, "eol": eol, "samples": shape["samples"], "recs": tables, "prog": {"t": 0}, "repl": []}
+
+
+def _filter_concat_cases(rng, fmt, eol, tier):
+    """family 0i: "filter every file of a set, concatenate what is left" - three files of unequal size, a selection of each (every
+    pattern of selections WITHOUT rows - all-False mask, empty slice, empty int list - among selections with rows), ONE n-ary
+    np.concatenate of 3 or 4 operands in any order, written as it is / after a replacement / after a further selection"""
+    rep = FORMATS[fmt][3]
+    base = _table_of(rng, fmt, eol, rng.choice([2, 3]), (rng.choice([1, 4]), rng.choice([2, 5])))
+    ns = [len(t) for t in base["recs"]]
+    out = []
+    for pattern in range(8):
+        for _ in range(1 if tier == "quick" else 2):
+            sels = []
+            for r in range(3):
+                n = ns[r]
+                if pattern >> r & 1:
+                    ix = rng.choice([{"mask": [False] * n}, {"slice": [n, None, 1]}, {"ints": []}, {"slice": [0, 0, 1]}])
+                else:
+                    ix = rng.choice([{"mask": [True] * n}, {"mask": [i != 0 or n == 1 for i in range(n)]}, {"slice": [None, None, -1]},
+                                     {"ints": [n - 1, 0]}])
+                sels.append({"sel": {"t": r}, "ix": ix})
+            order = rng.sample([0, 1, 2], 3)
+            operands = [sels[i] for i in order] + ([sels[order[1]]] if rng.random() < 0.3 else [])
+            p = {"cat": operands}
+            n = _spec_len(p, ns)
+            out.append(_set_op(dict(base, prog=p)))
+            if n and rng.random() < 0.5:
+                out.append(_set_op(dict(base, prog={"sel": p, "ix": {"slice": [None, None, -1]}})))
+            if n and rep and rng.random() < 0.5:
+                k = rng.choice(sorted(rep))
+                out.append(_set_op(dict(base, prog=p, repl=[[k, rep[k], _new_values(rng, rep[k], n)]])))
+    return out
+
+
+def _derived_inplace_cases(rng, fmt, eol, tier):
+    """family 0h: an UNTOUCHED parent, a derived table modified in place, then the parent / a sibling / the derived table written.
+    Named tables (`obj`) are created at their first use in program order; a table is never derived from a modified object AFTER
+    the modification through an `obj` node (the oracle treats an `obj` met after an assignment as created before it)."""
+    rep = FORMATS[fmt][3]
+    ks = sorted(rep)
+    rd = _readable(fmt)
+    n0 = 6
+    base = _table_of(rng, fmt, eol, n0)
+    d0 = {"t": 0}
+    KW = lambda k, n: [[k, rep[k], _new_values(rng, rep[k], n)]]
+    O = lambda i, of: {"obj": i, "of": of}
+    rev = {"slice": [None, None, -1]}
+    shapes = [({"slice": [None, 3, 1]}, {"slice": [3, None, 1]}),                       # two halves: the same number of rows
+              ({"ints": [5, 1, 0, 3, 2, 4]}, rev),                                       # as many rows as the parent itself
+              ({"mask": [True, False, True, True, False, False]}, {"ints": [4, 4, 1]}),
+              ({"slice": [1, None, 2]}, {"slice": [None, 2, 1]})]                        # other row counts
+    out = []
+    for ix1, ix2 in shapes:
+        k = rng.choice(ks)
+        k2 = rng.choice([x for x in ks if x != k] or ks)
+        n1, n2 = len(_py_index(list(range(n0)), ix1)), len(_py_index(list(range(n0)), ix2))
+        O1, O2 = O(1, {"sel": d0, "ix": ix1}), O(2, {"sel": d0, "ix": ix2})
+        S = {"set": O1, "kw": KW(k, n1)}
+        S2 = {"set": O2, "kw": KW(k2, n2)}
+        O3 = O(3, {"sel": O1, "ix": rev})
+        S3 = {"set": O3, "kw": KW(k, n1)}
+        OC = O(4, {"cat": [d0, d0]})
+        SC = {"set": OC, "kw": KW(k, 2 * n0)}
+        dch = {"t": 0, "chunk": 60}
+        O5 = O(5, {"sel": dch, "ix": ix1})
+        G = {"get": O1, "fs": [k] if k in rd else rd[:1]}
+        first = [{"seq": [S, d0]},                                                       # the parent
+                 {"seq": [O2, {"seq": [S, O2]}]},                                        # a sibling taken before the assignment
+                 {"seq": [S, O1]},                                                       # the modified table itself
+                 {"seq": [S, {"sel": d0, "ix": ix2}]}]                                   # a selection of the parent taken afterwards
+        more = [{"seq": [O2, {"seq": [S, {"sel": O2, "ix": rev}]}]},
+                {"seq": [S, {"sel": d0, "ix": ix1}]},
+                {"seq": [S, {"cat": [d0, O1]}]},
+                {"seq": [O2, {"seq": [S, {"cat": [O2, d0]}]}]},
+                {"seq": [S, {"rep": d0, "kw": KW(k2, n0)}]},
+                {"seq": [S, {"rep": d0, "kw": KW(k, n0)}]},
+                {"seq": [O2, {"seq": [S, {"rep": O2, "kw": KW(k2, n2)}]}]},
+                {"seq": [O2, {"seq": [S, {"seq": [S2, d0]}]}]},                          # two siblings, both assigned
+                {"seq": [O2, {"seq": [S, {"seq": [S2, O1]}]}]},
+                {"seq": [O2, {"seq": [S, {"seq": [S2, {"cat": [O1, O2]}]}]}]},
+                {"seq": [O1, {"seq": [S3, O1]}]},                                        # a selection of a selection is assigned
+                {"seq": [O1, {"seq": [S3, d0]}]},
+                {"seq": [O1, {"seq": [S3, {"cat": [O1, O3]}]}]},
+                {"seq": [SC, d0]},                                                       # derived by concatenation
+                {"seq": [SC, {"sel": d0, "ix": ix1}]},
+                {"seq": [SC, OC]},
+                {"seq": [{"set": O5, "kw": KW(k, n1)}, dch]},                            # the parent is a concatenation of chunks
+                {"seq": [{"set": O5, "kw": KW(k, n1)}, {"cat": [dch, O5]}]},
+                {"seq": [G, d0]},                                                        # columns of the derived table are read (cached)
+                {"seq": [G, {"rep": d0, "kw": KW(k2, n0)}]},
+                {"seq": [O2, {"seq": [G, {"cat": [O2, d0]}]}]},
+                {"seq": [{"touch": S}, d0]}]                                             # the modified table is written first
+        for p in first + (more if tier != "quick" else rng.sample(more, 6)):
+            out.append(_set_op(dict(base, prog=p)))
+        # the parent is written with a replacement of its own on top (only that column changes)
+        out.append(_set_op(dict(base, prog={"seq": [S, d0]}, repl=KW(k2, n0))))
+        out.append(_set_op(dict(base, prog={"seq": [O2, {"seq": [S, O2]}]}, repl=KW(k, n2))))
+    return out
 
 
 def _steps(p):
@@ -1284,9 +1446,13 @@ def model_request(c):
             return {"catr": [a, len(parts)]}
         if "cat" in p:
             qs = [tr(q) for q in p["cat"]]
-            if len(qs) != 2:        # n-ary concatenation of leaves: a range of tables
-                assert all(set(q) == {"t"} for q in qs) and [q["t"] for q in qs] == list(range(qs[0]["t"], qs[0]["t"] + len(qs)))
-                return {"catr": [qs[0]["t"], len(qs)]}
+            if len(qs) != 2:
+                if all(set(q) == {"t"} for q in qs) and [q["t"] for q in qs] == list(range(qs[0]["t"], qs[0]["t"] + len(qs))):
+                    return {"catr": [qs[0]["t"], len(qs)]}      # n-ary concatenation of leaves: a range of tables
+                r = qs[0]           # n-ary concatenation of arbitrary operands: run by the model as nested binary ones (the n-ary
+                for q in qs[1:]:    # rule itself is `concat_refines`; both denote the operands' records in order)
+                    r = {"cat": [r, q]}
+                return r
             return {"cat": qs}
         if "catall" in p:
             return {"catr": [0, p["catall"]]}
@@ -1294,6 +1460,8 @@ def model_request(c):
             return {"touch": tr(p["touch"])}
         if "get" in p:
             return tr(p["get"])         # reading a column only fills the lazy table's cache: no effect on the extractor
+        if "obj" in p:
+            return tr(p["of"])          # a named table: values are immutable in the model, naming is the identity
         if "seq" in p:
             return {"seq": [tr(q) for q in p["seq"]]}
         return {"sel": tr(p["sel"]), "ix": p["ix"]}
